@@ -120,6 +120,10 @@ type ethStorageResultJ struct {
 }
 
 // ethCase: one verification attempt against an ETH or BSC client
+// chain names of the protocol entries: every character class a chain name may contain
+var proofSrcNames = []string{"chain0", "chain1", "hub+zone-a", "a.b_c-d#e"}
+var proofDstNames = []string{"dest0", "dest1", "x+y+z", "p[q]<r>"}
+
 func (g *ProofGen) ethCase(c *tibctesting.TestChain, kind string, idx int) {
 	w := g.w
 	ck := c.App.TIBCKeeper.ClientKeeper
@@ -133,7 +137,7 @@ func (g *ProofGen) ethCase(c *tibctesting.TestChain, kind string, idx int) {
 	var ents []ent
 	entries := map[string][]byte{}
 	for i := 0; i < 3+g.r.Intn(4); i++ {
-		src, dst := fmt.Sprintf("chain%d", g.r.Intn(3)), fmt.Sprintf("dest%d", g.r.Intn(3))
+		src, dst := proofSrcNames[g.r.Intn(len(proofSrcNames))], proofDstNames[g.r.Intn(len(proofDstNames))]
 		seq := uint64(1 + g.r.Intn(300))
 		switch g.r.Intn(3) {
 		case 0:
@@ -376,7 +380,7 @@ func (g *ProofGen) tmCases(n int) {
 	var ents []ent
 	actx := a.GetContext()
 	for i := 0; i < 6; i++ {
-		src, dst := fmt.Sprintf("chain%d", g.r.Intn(3)), fmt.Sprintf("dest%d", g.r.Intn(3))
+		src, dst := proofSrcNames[g.r.Intn(len(proofSrcNames))], proofDstNames[g.r.Intn(len(proofDstNames))]
 		seq := uint64(1 + g.r.Intn(400))
 		switch g.r.Intn(3) {
 		case 0:
